@@ -7,7 +7,8 @@ import tomlw
 import vp
 
 IDS = ["heroku/nodejs", "a/b", "x", "some.id/with-dash", "vp/n0", "deep/er/id", "a/b/", "x/", "a/b.c", "a/b-",      # "a/b/" and "a/b" are different, valid ids
-       "Heroku/NodeJS", "A/B", "X", "a/B"]                                                                          # ... and so are ids that differ in case only
+       "Heroku/NodeJS", "A/B", "X", "a/B",
+       "x/./y", "a/../cfg", "./tool", "x/y/.."]      # '.' and '..' are ordinary id characters: "x/./y" is not "x/y"                                                                          # ... and so are ids that differ in case only
 OTHER_URIS = ["docker://docker.io/heroku/procfile-cnb:2.0.1", "docker://REGISTRY.Example.com:5000/Img@sha256:0123abcd",
               "https://example.com/bp.tgz?q=1&x=y#frag", "http://h/p", "HTTPS://Example.COM/Mixed/Case", "urn:cnb:registry:heroku/nodejs@1.2.3",
               "file:///abs/path/bp.cnb", "docker:/single-slash", "urn:cnb:builder:one",
